@@ -136,14 +136,10 @@ let run () =
                 | RAlt (_, _) -> group_node x
                 (* a lookahead over terms of the fragment (no capture groups: start_group = end_group = 0) *)
                 | RLook (true, ng, b) -> (match group_node b with Some m -> Some (NLookaround (ng, false, nat_of_int 0, nat_of_int 0, m)) | None -> None)
-                (* r? r?? r* r*? over a factor of the fragment: the Loop node of the parser (no capture groups enclosed) *)
-                | RQuant (b, O, (None | Some (S O) as mx), g, _, _) ->
+                (* r{m,n} (incl. ? * +), greedy or lazy, over a factor of the fragment: the Loop node of the parser (no capture groups enclosed) *)
+                | RQuant (b, mn, mx, g, _, _) when (match mx with None -> true | Some m -> int_of_nat mn <= int_of_nat m) ->
                   (match group_node b with
-                   | Some m -> Some (NLoop (m, nn "0", (match mx with None -> None | Some _ -> Some (nn "1")), g, nat_of_int 0, nat_of_int 0))
-                   | None -> None)
-                | RQuant (b, S O, None, g, _, _) ->
-                  (match group_node b with
-                   | Some m -> Some (NLoop (m, nn "1", None, g, nat_of_int 0, nat_of_int 0))
+                   | Some m -> Some (NLoop (m, n_of_int (int_of_nat mn), (match mx with None -> None | Some x -> Some (n_of_int (int_of_nat x))), g, nat_of_int 0, nat_of_int 0))
                    | None -> None)
                 | y -> atom_node y) t) ts in
             if List.for_all (List.for_all (fun o -> o <> None)) fs then begin
